@@ -237,6 +237,17 @@ func getParentMethodT(
 	return nil
 }
 
+// GetOwnMethodT returns the instance method declared on the class itself: no lookup in
+// parent classes or fallback frames.
+func GetOwnMethodT(frame, targetClass, targetMethod string, isPrivate bool) *T {
+	return TFrame[methodTFrameKey(frame, targetClass, targetMethod, isPrivate)]
+}
+
+// GetOwnClassMethodT is GetOwnMethodT for class methods.
+func GetOwnClassMethodT(frame, targetClass, targetMethod string, isPrivate bool) *T {
+	return TFrame[classMethodTFrameKey(frame, targetClass, targetMethod, isPrivate)]
+}
+
 func GetMethodT(frame, targetClass, targetMethod string, isPrivate bool) *T {
 	methodT, ok :=
 		TFrame[methodTFrameKey(frame, targetClass, targetMethod, isPrivate)]
